@@ -341,6 +341,39 @@ func c10(ctx *Ctx) {
 		},
 		DocFilter: func(sc *SCase, d *refmodel.Doc, tv refmodel.Verdict) bool { return !strings.Contains(d.Class, "type:") },
 	})
+	// part E: a member of an allOf / anyOf list that lives in another document and has local references of its own: those references
+	// belong to the document they are written in, whether or not the referring document has a definition of the same name
+	var cross []SCase
+	for _, comp := range []string{"allOf", "anyOf"} {
+		for _, ownOther := range []bool{false, true} {
+			for _, plain := range []bool{false, true} {
+				lib := J{"$id": "https://example.com/lib", "type": "object", "properties": J{"z": J{"type": "string"}},
+					"$defs": J{"Thing": J{"type": "object", "properties": J{"other": J{"$ref": "#/$defs/Other"}, "t": J{"type": "integer"}}},
+						"Other": J{"type": "object", "properties": J{"o": J{"type": "string", "minLength": 2}}, "required": A{"o"}}}}
+				var x J
+				if plain {
+					x = J{"$ref": "lib.json#/$defs/Thing"} // control: the same target as a plain property reference
+				} else {
+					x = J{comp: A{J{"$ref": "lib.json#/$defs/Thing"}, J{"type": "object", "properties": J{"extra": J{"type": "string"}}}}}
+				}
+				main := J{"$id": "https://example.com/main", "type": "object", "properties": J{"x": x, "k": J{"type": "string"}}}
+				if ownOther {
+					main["$defs"] = J{"Other": J{"type": "object", "properties": J{"mine": J{"type": "integer"}}}}
+					main["properties"].(J)["mo"] = J{"$ref": "#/$defs/Other"}
+				}
+				id := fmt.Sprintf("C10/E/cross-file-member/%s/own-definition-of-the-same-name=%v/plain-reference=%v", comp, ownOther, plain)
+				if plain && comp == "anyOf" {
+					continue
+				}
+				cross = append(cross, SCase{ID: id, Schema: main, Cfg: baseCfg(), Extra: []genlab.File{{Path: "lib.json", Content: space.Text(lib)}},
+					Axes: map[string]string{"pos": "cross-file-member", "leaf": fmt.Sprintf("%s/%v/%v", comp, ownOther, plain), "composite": comp}})
+			}
+		}
+	}
+	runBehaviour(ctx, behaviour{Name: "cross-file-member", Cases: cross, Devs: c10Devs, K: 1,
+		OnGenErr: func(sc *SCase, msg string) {
+			ctx.Run.Violation("cross-file-member-not-generated", fmt.Sprintf("%s: %s", sc.ID, firstLine(msg)), map[string]any{"kind": "gen", "files": sc.Case().Files, "args": sc.Case().Args, "cfg": sc.Case().Cfg})
+		}})
 	// part C: loader state
 	for _, u := range c20Universes(0) {
 		if !strings.HasPrefix(u.name, "same-basename") {
